@@ -1,6 +1,7 @@
 package catalogue
 
 import (
+	"fmt"
 	"time"
 
 	"github.com/Oneledger/protocol/action"
@@ -142,6 +143,22 @@ func multiScenarios() []*harness.Scenario {
 				}
 			},
 			Target: send("mu-send"),
+			After:  5,
+		},
+		{
+			// EVERY validator unstakes everything: nobody is eligible any more, all records carry power 0 while
+			// Tendermint keeps its last set, fees keep arriving in the pool (the block-end fee distribution divides
+			// by the total power of the records)
+			Kind: action.SEND.String(), Note: "multi-all-validators-unstake-everything",
+			World: func() *harness.World { return harness.NewWorld("multi-allgone", 4, 3) },
+			Prefix: func(w *harness.World) []harness.BlockSpec {
+				bs := []harness.BlockSpec{{}, {}}
+				for i, v := range w.Vals {
+					bs = append(bs, harness.BlockSpec{Txs: []*harness.TxSpec{stk.Unstake(v.Val, v.Stake, stk.WholeOLT(v.Power), fmt.Sprintf("ag-u%d", i))}})
+				}
+				return bs
+			},
+			Target: send("ag-send"),
 			After:  5,
 		},
 		{
